@@ -70,6 +70,7 @@ PARTIAL = [
     "driver ops I / R answer ERR exactly where the code raises (Driver/Shape.lean callListsOk: param shorter than pdim -> IndexError; with check_num len(num) != pdim; without "
     "check_num a num entry missing where param[i] is not None), a LONGER param list is accepted by both (surplus never read) - diagnostic correspondence stream list-lengths; "
     "the theorems do not speak about surplus entries",
+    "which span search the object-level models use (statement audit 5, I3): insertKnotDir / insertKnotDirCoded / removeKnotDir / a54Init(Rows) and the volume-rows wrappers call findSpanLinear, the search WITHOUT the step back of the F-01b repair (the code's find_span_linear = findSpanLinearR); they differ only at u = U_n of a knot vector with an empty last domain span (U_{n-1} = U_n), which every theorem excludes (KvWF.last, DirReqOk.hi) - there the models are NOT the code (real insert_knot(c,[5],[1]) on U = [0,1,2,3,4,5,5,6,7,8], degree 3, uses span 4, the model span 5: different nets) and the driver ops ins / insm / insc / ops I,R / rowsvol I,R answer OUT: the model line is not compared (core.py, evidence correspondence.outside_model), the oracle alone judges; observation: remove_knot at u = U_n of such a vector raises ZeroDivisionError (U = [0,1,2,3,4,5,5,6,7,8], degree 3, remove 5) or returns a damaged knot vector (U = [0,0,0,1/2,1,1,1,1], degree 2, remove 1 -> 0,0,0,1,1,1,1) - not an interior knot, outside the property",
 ]
 
 
